@@ -152,13 +152,13 @@ func H_C01_entry() {
 }
 
 //verif:witness H_C01_kinds end
-//verif:bound C01 all logger kinds by direct construction: sync / async (capacity 2) with and without a logger-level layout, two appender references (one open-ended, one explicit with arbitrary int32 bounds), console logger, file logger, rolling-file logger sync/async with and without the separate .wf file; one event with an arbitrary int32 level; delivery observed per appender (events or formatted lines) resp. per file
+//verif:bound C01 all logger kinds by direct construction: sync / async (capacity 2) with and without a logger-level layout, two appender references (one open-ended, one explicit with arbitrary int32 bounds), console logger, file logger, rolling-file logger sync/async with and without the separate .wf file; 1..3 events with one arbitrary int32 level (async kinds: buffer capacity 1, Block policy, so later events take the buffer-full path); delivery observed per appender (events or formatted lines) resp. per file
 
 // H_C01_kinds: the level gate holds for every logger kind and for both routes (events / formatted bytes).
 func H_C01_kinds() {
 	vOpt("loop", 400)
 	vOpt("preempt", 1)
-	vOpt("chancap", 2)
+	vOpt("chancap", 1) // async kinds: the second event already finds the buffer full (Block policy: the call waits for the worker)
 	root := vFSRoot()
 	defer vFSCleanup()
 	dir := root + "/logs"
@@ -169,6 +169,7 @@ func H_C01_kinds() {
 	Stdout = sink
 	defer func() { Stdout = saved }()
 	lmin, lmax, L := vInt32("lmin"), vInt32("lmax"), vInt32("L")
+	nEvents := 1 + vChoose("events", 3)
 	lr := LevelRange{MinLevel: Level{code: lmin, name: "A"}, MaxLevel: Level{code: lmax, name: "B"}}
 	base := LoggerBase{Name: "k", Level: lr}
 	withLayout := vChoose("loggerLayout", 2) == 1
@@ -198,6 +199,7 @@ func H_C01_kinds() {
 			l.AppenderRefs.AppenderRefs = refs
 			l.sortByLevel()
 			logger = l
+			vNoNative() // the buffer capacity override exists in the engine only
 		}
 	case 2:
 		logger = &ConsoleLogger{LoggerBase: base, ConsoleAppender: ConsoleAppender{Layout: lay}}
@@ -207,11 +209,16 @@ func H_C01_kinds() {
 		logger = &RollingFileLogger{LoggerBase: base, FileDir: dir, FileName: "r", Rotation: TimeRotation{Interval: time.Hour}, MaxAge: 168,
 			Separate: vChoose("separate", 2) == 1, AsyncWrite: vChoose("async", 2) == 1, BufferSize: 100, BufferFullPolicy: BufferFullPolicyBlock}
 	}
+	if rl, ok := logger.(*RollingFileLogger); ok && rl.AsyncWrite {
+		vNoNative()
+	}
 	if err := logger.Start(); err != nil {
 		panic(err)
 	}
 	tag := &Tag{tag: "_t_x", logger: logger}
-	Record(context.Background(), Level{code: L, name: "EV"}, tag, 1, Msg("m"))
+	for i := 0; i < nEvents; i++ {
+		Record(context.Background(), Level{code: L, name: "EV"}, tag, 1, Msg("m"))
+	}
 	logger.Stop()
 	enabled := lmin <= L && L < lmax
 	switch kind {
@@ -219,16 +226,16 @@ func H_C01_kinds() {
 		for i := 0; i < 2; i++ {
 			got := apps[i].appends + apps[i].writes
 			if vSpecDelivered(lmin, lmax, L, specs, i) {
-				vAssert(got == 1, "enabled-appender-receives-exactly-once")
+				vAssert(got == nEvents, "enabled-appender-receives-exactly-once")
 			} else {
 				vAssert(got == 0, "disabled-appender-receives-nothing")
 			}
 		}
 	case 2:
-		vAssert(len(sink.writes) == b2n(enabled), "console-logger-emits-iff-enabled")
+		vAssert(len(sink.writes) == nEvents*b2n(enabled), "console-logger-emits-iff-enabled")
 	case 3:
 		c, _ := vFSRead(dir, "f.log")
-		vAssert(vCountLines(c) == b2n(enabled), "file-logger-emits-iff-enabled")
+		vAssert(vCountLines(c) == nEvents*b2n(enabled), "file-logger-emits-iff-enabled")
 	default:
 		rl := logger.(*RollingFileLogger)
 		normal, wf := 0, 0
@@ -241,11 +248,11 @@ func H_C01_kinds() {
 			}
 		}
 		if !rl.Separate {
-			vAssert(normal == b2n(enabled) && wf == 0, "rolling-logger-emits-iff-enabled")
+			vAssert(normal == nEvents*b2n(enabled) && wf == 0, "rolling-logger-emits-iff-enabled")
 		} else {
 			// normal file serves [min,WARN), the .wf file [WARN,max)
-			vAssert(normal == b2n(enabled && L < 400), "normal-file-serves-below-warn")
-			vAssert(wf == b2n(enabled && L >= 400), "wf-file-serves-warn-and-above")
+			vAssert(normal == nEvents*b2n(enabled && L < 400), "normal-file-serves-below-warn")
+			vAssert(wf == nEvents*b2n(enabled && L >= 400), "wf-file-serves-warn-and-above")
 		}
 	}
 	vReach("end")
